@@ -12,18 +12,22 @@ from bsv.explore import genproto as G
 ID = "C23"
 LEVEL = "model_checking"
 ENGINE = "G"
-# tier -> inner program nodes (generic wrappers), nodes for vocabulary-heavy wrappers, max injections per execution
-BOUNDS = {"quick": {"n": 3, "nv": 3, "inj": 1}, "thorough": {"n": 4, "nv": 4, "inj": 2}}
+# tier -> layers: inner program nodes (<= n, or exactly n when exact), max injections per execution, reduced = smaller families
+# for the costly configurations.  The layers of a tier are disjoint in the inner program.
+BOUNDS = {
+    "quick": [{"n": 3, "exact": False, "inj": 1, "reduced": True}],
+    "thorough": [{"n": 3, "exact": False, "inj": 2, "reduced": False}, {"n": 4, "exact": True, "inj": 1, "reduced": True}],
+}
 HORIZON = 60
 INJECT = (G.THROW_E1, G.THROW_STOP, G.THROW_ABORT)
 RULE = (
     "G + scripted responder (open_run -> uid, subscribe -> fresh token, stage/unstage -> [obj] | [obj]+children | Status object, else None): "
     "run_wrapper, stage_wrapper, lazily_stage_wrapper, subs_wrapper, suspend_wrapper, monitor_during_wrapper, fly_during_wrapper around every "
-    "inner program with <= N nodes (N=3 quick, 4 thorough) of the grammar {Y(msg), YF, Seq, Try(except Exception/else/finally), Raise, Return} "
+    "inner program with <= N nodes of the grammar {Y(msg), YF, Seq, Try(except Exception/else/finally), Raise, Return} "
     "instantiated per wrapper (generic 'null' messages; read/null on the devices of the list for lazily_stage; open_run/close_run with and "
     "without run keys + null for monitor/fly, and run_wrapper(program) as inner plan); device lists = every tuple of 1-3 devices (repetition "
     "allowed for stage_wrapper, every subset for the others) from the forest P1{c1a,c1b}, P2{c2a}, S; scripts = every placement of <= J "
-    "injections (J=1 quick, 2 thorough) from {throw E1, RequestStop, RequestAbort} at messages of the wrapped plan, everything else answered by "
+    "injections (quick: N<=3,J=1; thorough: N<=3,J=2 plus N=4,J=1 on the configurations whose inner vocabulary matters) from {throw E1, RequestStop, RequestAbort} at messages of the wrapped plan, everything else answered by "
     "the responder, run to termination; oracle per wrapper on the emitted trace: one close_run per open_run with exit_status matching the "
     "outcome; unstage sequence (restricted to devices of emitted stage messages) = reverse of the stage sequence, each once, after the plan's "
     "last message; every token unsubscribed once; every suspender removed once; unmonitor / complete-then-collect of every device between the "
@@ -152,47 +156,57 @@ def _tuples(maxn=3):
     return out
 
 
-def _generic(n):
-    return G.programs(n, leaves=GENERIC_LEAVES, catch=("E",))
+def _generic(n, exact=False):
+    return G.programs(n, leaves=GENERIC_LEAVES, catch=("E",), exact=exact)
 
 
 def _configs(tier):
-    """Every (wrapper, config, inner-program family) - config is JSON-able."""
-    b = BOUNDS[tier]
-    n, nv = b["n"], b["nv"]
+    """Every (wrapper, config, inner-program family) - config is JSON-able; family = (kind, nodes, exact, injections)."""
     out = []
-    for md in (None, {"purpose": "x"}):
-        out.append(("run_wrapper", {"md": md}, ("generic", n)))
-    for mode in ("self", "tree", "status"):
-        for devs in _tuples(3):
-            out.append(("stage_wrapper", {"devices": list(devs), "stage": mode}, ("generic", min(n, 2 if tier == "quick" else 3))))
-        for devs in _subsets(3):
-            out.append(("lazily_stage_wrapper", {"devices": list(devs), "stage": mode}, ("devices", nv if len(devs) < 3 or tier != "quick" else 2)))
-    for subs in ("func", "list2", "dict", "none"):
-        out.append(("subs_wrapper", {"subs": subs}, ("generic", n)))
-    for susp in ("single", "list1", "list2", "empty"):
-        out.append(("suspend_wrapper", {"susp": susp}, ("generic", n)))
-    for w in ("monitor_during_wrapper", "fly_during_wrapper"):
-        for devs in _subsets(3):
-            small = len(devs) > 1
-            out.append((w, {"devices": list(devs)}, ("runs", nv - 1 if small and tier == "quick" else nv)))
-            out.append((w, {"devices": list(devs)}, ("run_wrapper", 2 if tier == "quick" else 3)))
-            if len(devs) <= 2:
-                out.append((w, {"devices": list(devs)}, ("keyed", 3 if tier == "quick" else 4)))
+    for layer in BOUNDS[tier]:
+        n, ex, inj, red = layer["n"], layer["exact"], layer["inj"], layer["reduced"]
+
+        def fam(kind, nodes):
+            return (kind, nodes, ex, inj)
+
+        for md in (None, {"purpose": "x"}):
+            out.append(("run_wrapper", {"md": md}, fam("generic", n)))
+        for mode in ("self", "tree", "status"):
+            if not ex:  # stage_wrapper never looks at the wrapped plan's messages: inner programs <= 2 (3) nodes
+                for devs in _tuples(3):
+                    out.append(("stage_wrapper", {"devices": list(devs), "stage": mode}, fam("generic", 2 if red else 3)))
+            for devs in _subsets(3):
+                if ex and len(devs) > 2:
+                    continue
+                out.append(("lazily_stage_wrapper", {"devices": list(devs), "stage": mode}, fam("devices", n if len(devs) < 3 or not red else 2)))
+        for subs in ("func", "list2", "dict", "none"):
+            out.append(("subs_wrapper", {"subs": subs}, fam("generic", n)))
+        for susp in ("single", "list1", "list2", "empty"):
+            out.append(("suspend_wrapper", {"susp": susp}, fam("generic", n)))
+        for w in ("monitor_during_wrapper", "fly_during_wrapper"):
+            for devs in _subsets(3):
+                if ex:
+                    if len(devs) == 1:
+                        out.append((w, {"devices": list(devs)}, fam("runs", n)))
+                    continue
+                out.append((w, {"devices": list(devs)}, fam("runs", n - 1 if len(devs) > 1 and red else n)))
+                out.append((w, {"devices": list(devs)}, fam("run_wrapper", 2 if red else 3)))
+                if len(devs) <= 2:
+                    out.append((w, {"devices": list(devs)}, fam("keyed", 3)))
     return out
 
 
 def _inner_programs(family, cfg):
-    kind, n = family
+    kind, n, ex = family[0], family[1], family[2]
     if kind in ("generic", "run_wrapper"):
-        return _generic(n)
+        return _generic(n, ex)
     if kind == "devices":
         leaves = tuple(("Y", "read", d) for d in cfg["devices"]) + (("Y", "null"), ("Raise", 2))
-        return [p for p in G.programs(n, leaves=leaves, catch=("E",)) if any(x[0] == "Y" and len(x) > 2 for x in G.walk(p))]
+        return [p for p in G.programs(n, leaves=leaves, catch=("E",), exact=ex) if any(x[0] == "Y" and len(x) > 2 for x in G.walk(p))]
     if kind == "runs":
-        return [p for p in G.programs(n, leaves=RUN_LEAVES, catch=("E",)) if any(x[0] == "Y" and x[1] == "close_run" for x in G.walk(p))]
+        return [p for p in G.programs(n, leaves=RUN_LEAVES, catch=("E",), exact=ex) if any(x[0] == "Y" and x[1] == "close_run" for x in G.walk(p))]
     if kind == "keyed":
-        return [p for p in G.programs(n, leaves=KEYED_LEAVES, catch=("E",)) if any(x[0] == "Y" and x[1].startswith("close_run") for x in G.walk(p))]
+        return [p for p in G.programs(n, leaves=KEYED_LEAVES, catch=("E",), exact=ex) if any(x[0] == "Y" and x[1].startswith("close_run") for x in G.walk(p))]
     raise ValueError(family)
 
 
@@ -201,7 +215,7 @@ def describe(tier):
     per = {}
     for w, _c, _f in cfgs:
         per[w] = per.get(w, 0) + 1
-    return {"bounds": dict(BOUNDS[tier], configs_per_wrapper=per, horizon=HORIZON)}
+    return {"bounds": {"layers": BOUNDS[tier], "configs_per_wrapper": per, "horizon": HORIZON}}
 
 
 def worker_init():
@@ -394,12 +408,11 @@ def _run_case(t, wrapper, cfg, family, prog, max_inj):
 
 
 def run_item(item):
-    b = BOUNDS[item["tier"]]
     t = G.Tally()
     for wrapper, cfg, family in _configs(item["tier"])[item["lo"] : item["hi"]]:
         progs = _inner_programs(family, cfg)
         for prog in progs:
-            _run_case(t, wrapper, cfg, family, prog, b["inj"])
+            _run_case(t, wrapper, cfg, family, prog, family[3])
         t.sample({"wrapper": wrapper, "cfg": cfg, "family": list(family), "inner_programs": len(progs)})
     return t.result()
 
